@@ -96,18 +96,20 @@ SscanfVariant(f, style) ==
 AllStyles(f) == Styles(f) \cup {"canon"}
 Lens(f) == (0..(Len(txt[f]) + 1)) \cup {Len(txt[f]) + 33}
 
-\* (guards are repeated outside the quantifiers so that TLC does not enumerate the family in states where nothing is enabled)
-\* In simulation TLC generates every successor and evaluates the invariants on all of them before picking one, so
-\* (a) Set is offered a random sample of the family only (and Snprintf a sample of the lengths), (b) a finished history is printed when TLC expands the
-\* state it actually reached (the last disjunct), not from an invariant.
+\* Guards are repeated outside the quantifiers so that TLC does not enumerate the family in states where nothing
+\* is enabled.  In simulation TLC generates every successor and evaluates the invariants on all of them before it
+\* picks one, so (a) each step offers a random sample only (one value and one steering for Set, two lengths for
+\* Snprintf, one style for SscanfVariant), which also balances the kinds of calls in a history, and (b) a finished
+\* history is printed when TLC expands the state it actually reached (last disjunct), not from an invariant.
+Pick(k, S) == IF Chain THEN RandomSubset(k, S) ELSE S
 Next == \/ /\ More
-           /\ \/ (Chain \/ hist = <<>>) /\ \E v \in (IF Chain THEN RandomSubset(SimPick, Family) ELSE Family), st \in (IF Chain THEN RandomSubset(1, Steer) ELSE Steer) : Set(v, st)
+           /\ \/ (Chain \/ hist = <<>>) /\ \E v \in Pick(SimPick, Family), st \in Pick(1, Steer) : Set(v, st)
               \/ hist # <<>> /\ \E f \in Fmts :
                     \/ Asprintf(f)
-                    \/ f \in known /\ Mode = "full" /\ \E k \in (IF Chain THEN RandomSubset(2, Lens(f)) ELSE Lens(f)) : Snprintf(f, k)
+                    \/ f \in known /\ Mode = "full" /\ \E k \in Pick(2, Lens(f)) : Snprintf(f, k)
                     \/ SnprintfNull(f)
                     \/ Reparse(f)
-                    \/ (Chain \/ Len(hist) = 1) /\ Mode = "full" /\ \E style \in (IF Chain THEN RandomSubset(1, AllStyles(f)) ELSE AllStyles(f)) : SscanfVariant(f, style)
+                    \/ (Chain \/ Len(hist) = 1) /\ Mode = "full" /\ \E style \in Pick(1, AllStyles(f)) : SscanfVariant(f, style)
         \/ Chain /\ ~More /\ PrintT(<<"SIM", ToJson(hist)>>) /\ FALSE /\ UNCHANGED <<reg, txt, steer, known, out, hist>>
 
 Spec == Init /\ [][Next]_<<reg, txt, steer, known, out, hist>>
